@@ -1034,7 +1034,8 @@ def clause_read_merge(R, F, scans=("get_range", "all")):
     if fn:
         disk = [c for c in fn.calls() if (c.method or "") == "full_iterator" and recv_field(fn, c) == "db"]
         mem = [c for c in fn.calls() if (c.method or "") in ("keys", "last_key_value", "iter") and recv_field(fn, c) == "cache"]
-        mx = [c for c in fn.calls() if (c.target_path or "").endswith("cmp::max")]
+        # std::cmp::max(a, b) or a.max(b) - also on the Option<u64>s themselves (None < Some(_), so an empty side never wins)
+        mx = [c for c in fn.calls() if ((c.target_path or "").endswith("cmp::max") or (c.method or "") == "max") and not fn.is_cleanup(c.bb)]
         okm = bool(disk) and bool(mem) and bool(mx)
         if disk:
             okm = okm and "End" in show(origin(fn, disk[0].args[1]))
@@ -1108,6 +1109,16 @@ def clause_commit_per_key(R, F):
 def clause_blockdb_commit(R, F):
     fn = _tfn(F, _tt(F, "BlockDatabase"), "commit")
     puts = [c for c in fn.calls() if (c.method or "") == "put" and recv_field(fn, c) == "db" and not fn.is_cleanup(c.bb)]
+    if not puts:
+        # `self.cache.iter().try_for_each(|(n, v)| self.db.put(..))?`: the writes sit in the closure the adapter call runs; that
+        # call is the write site for ordering purposes
+        for c in fn.calls():
+            if fn.is_cleanup(c.bb) or (c.method or "") not in ("try_for_each", "for_each", "try_fold"):
+                continue
+            for cid in ((c.func or {}).get("arg_cl") or []):
+                g = F.fns.get(cid)
+                if g is not None and any((x.method or "") == "put" and mentions(origin(g, x.args[0]), "db") for x in g.calls() if not g.is_cleanup(x.bb)):
+                    puts.append(c)
     fl = [c for c in fn.calls() if (c.method or "") == "flush" and recv_field(fn, c) == "db" and not fn.is_cleanup(c.bb)]
     R.ob(bool(puts) and bool(fl) and must_pass_on_success(fn, [c.bb for c in fl]), "DOM-all", fn.where(), "DOM-all|blockdb.commit|flush",
          "BlockDatabase::commit does not flush on every success path", sample={"rule": "DOM-all", "fn": "blockdb.commit", "step": "flush"})
